@@ -108,6 +108,17 @@ let run (f : string list) : string =
            ^ (match fin with
               | Ok d' -> dump (fun (s, c) -> hex s ^ "*" ^ dec_of_n c) d'
               | Err e -> err_name e))
+  | "own" :: cmds ->
+      (* projection of an impl/t_own.c script onto the ownership model (Own.script_ops): kind of each command by its name *)
+      let kind c =
+        let w = List.hd (String.split_on_char ' ' c) in
+        if List.mem w ["dup"; "dupmeta"] then 2
+        else if List.mem w ["parse"; "parsep"; "parseop"; "term"; "inner"; "list"; "list2"; "any"; "opaq"; "opaq2"; "meta"; "attr"; "path";
+                            "path1"; "diff"; "rev"; "lybrt"; "merge"; "apply"; "dmerge"; "impl"; "val"; "valmod"; "valop"; "ins"; "unlink";
+                            "anycopy"; "chg"; "chgmeta"; "chgcanon"; "chgbin"; "lys"] then 0
+        else 1 in
+      let (d, e) = own_script_delta (List.map (fun c -> n_of_int (kind c)) cmds) in
+      "d" ^ dec_of_n d ^ ":e" ^ dec_of_n e
   | _ -> "?"
 
 let () = main_loop run
